@@ -181,25 +181,29 @@ theorem affinity_jobs_partial (c : CaseCfg) (hr : c.cfg.router = .kp) (steps : L
 
 /-! ## Queuer routing never idles a worker while a job waits -/
 
-/-- (queuer) With queuer routing (no rate limiter in front of it), for every configuration and
-EVERY sequence of operations — dispatches, completions, worker failures and kills, TTL expiry,
-discard limits, pool growth and shrinkage, settings updates, drain, a factory held busy — after
-every step: if a job waits in the factory queue then no worker of the pool is available.
-The proof carries the soundness of the router's lazy available-workers deque (every available
-worker is flagged, every flagged worker is in the deque) through every function
-(`Lemmas/FactoryQueuer.lean`). -/
-theorem queuer_never_idles (c : CaseCfg) (hr : c.cfg.router = .q) (hrl : c.rl = none) (steps : List Step) :
+/-- (queuer) With queuer routing — with or without a rate limiter in front of the router — for every
+configuration and EVERY sequence of operations (dispatches, completions, worker failures and kills, TTL
+expiry, discard limits, pool growth and shrinkage, settings updates, drain, a factory held busy), after every
+step: if a job waits in the factory queue then no worker of the pool is available. A rate limiter does not
+weaken this: a job the limiter refuses is never left waiting (`dispatch` and the routing loop of
+`try_route_next_active_job` hand it to the discard handler as `RateLimited` and go on with the next one), and the
+worker that the loop had already taken out of the router's deque for it is announced as available again
+(`RateLimitedRouter::route_message`: `on_worker_availability_change(wid, true)`). The proof carries the
+soundness of the router's lazy available-workers deque (every available worker is flagged, every flagged
+worker is in the deque) through every function (`Lemmas/FactoryQueuer.lean`; the loop goes round once per
+refused job). -/
+theorem queuer_never_idles (c : CaseCfg) (hr : c.cfg.router = .q) (steps : List Step) :
     ((init c).runSteps steps).queue ≠ [] → ∀ p ∈ ((init c).runSteps steps).pool, p.isAvailable = false := by
   intro hq p hp
-  exact (qd_runSteps (init c) steps (qd_init c hr hrl)).q hq p hp (by simp)
+  exact (qd_runSteps (init c) steps (qd_init c hr)).q hq p hp (by simp)
 
 /-- … and whenever a worker is available the router knows it: it is flagged and in the deque,
-so the next dispatch finds it. -/
-theorem queuer_deque_sound (c : CaseCfg) (hr : c.cfg.router = .q) (hrl : c.rl = none) (steps : List Step) :
+so the next dispatch finds it — also right after the limiter refused a job that was about to go to it. -/
+theorem queuer_deque_sound (c : CaseCfg) (hr : c.cfg.router = .q) (steps : List Step) :
     ∀ p ∈ ((init c).runSteps steps).pool, p.isAvailable = true →
       p.wid ∈ ((init c).runSteps steps).inQ ∧ p.wid ∈ ((init c).runSteps steps).avail := by
   intro p hp ha
-  have d := (qd_runSteps (init c) steps (qd_init c hr hrl)).d
+  have d := (qd_runSteps (init c) steps (qd_init c hr)).d
   have h1 := d.d1 p hp (by simp) ha
   exact ⟨h1, d.sub _ h1⟩
 
@@ -341,6 +345,16 @@ example : ((init qCase).runSteps qSteps).queue.length = 1 ∧
 /-- the hypotheses of the actor-level theorems are satisfiable by a run in which a worker holds a job -/
 example : noStaleRun (init qCase) qSteps = true ∧ ((init qCase).runSteps qSteps).stopped = false ∧
     (((init qCase).runSteps qSteps).env.actors.map fun a => (a.alive, a.heldJobs.map (·.id))) = [(true, [1])] := by decide +kernel
+/-- queuer behind an empty leaky bucket (refill 0): every job is refused and reported `RateLimited`, none waits,
+and the worker stays available and known to the router -/
+def qrlCase : CaseCfg :=
+  { cfg := { router := .q, prioQueue := false, hasHandler := true, table := [], hasCC := false }, n := 1, disc := none,
+    rl := some (0, 1000000, 1, 0) }
+example : ((init qrlCase).runSteps qSteps).queue = [] ∧
+    ((init qrlCase).runSteps qSteps).pool.map (·.isAvailable) = [true] ∧
+    ((init qrlCase).runSteps qSteps).inQ = [0] ∧
+    (((init qrlCase).runSteps qSteps).env.log.filterMap fun | .discard r id _ => some (r, id) | _ => none)
+      = [(.rateLimited, 1), (.rateLimited, 2)] := by decide +kernel
 example : rrSeq 3 3 7 = [0, 1, 2] := by decide
 example : rrSeq 4 4 1 = [2, 3, 0, 1] := by decide
 example : chooseCustom (fun _ _ => 2 ^ 64 - 1) 5 3 = 0 := by decide
